@@ -95,11 +95,11 @@ _HANGS = [0]
 
 def impl(case) -> str:
     # a producer that spins inside resumeProducing must become a failure quickly: own limit (3 s; once three
-    # cases have hung, 0.5 s) instead of common's 10 s per case
+    # cases have hung, 0.25 s) instead of common's 10 s per case
     from harness.common import CaseTimeout, time_limit
 
     try:
-        with time_limit(3.0 if _HANGS[0] < 3 else 0.5):
+        with time_limit(3.0 if _HANGS[0] < 3 else 0.25):
             code, cr, cl, ct, body = _serve(case)
     except CaseTimeout:
         _HANGS[0] += 1
@@ -352,7 +352,7 @@ def corpus():
 
 
 def shrink(case):
-    if case["range"] is None:
+    if case["range"] is None or _HANGS[0] > 60:      # a run full of hangs has its failing inputs; do not spend minutes minimising
         return
     h = bytes.fromhex(case["range"])
     if case["size"] > 0:
